@@ -194,11 +194,18 @@ pub fn profile(name: &str, tier: Tier) -> Option<Profile> {
             p.queries = if q { Range(30, 50) } else { Range(80, 120) };
             p.p_exhaustive = 0.15;
             p.rounds = Range(1, 3);
+            if !q {
+                // a hundred queries per built state: the model's traversal is quadratic in the queue length
+                p.first_items = Mix(vec![(1, Range(0, 3)), (6, Range(0, 60)), (2, Range(60, 250))]);
+            }
         }
         // a stored vector is routed to itself
         "c04" => {
             p.default_cases = if q { 150 } else { 2000 };
-            p.self_lookups = if q { 200 } else { 3000 };
+            p.self_lookups = if q { 200 } else { 600 };
+            if !q {
+                p.first_items = Mix(vec![(1, Range(0, 3)), (6, Range(0, 60)), (3, Range(60, 400))]);
+            }
             p.queries = Range(0, 1);
             p.families.push((2, Family::Cluster));
             if !q {
